@@ -370,7 +370,9 @@ func (c *GroupCoordinator) OffsetCommit(ctx context.Context, req *kmsg.OffsetCom
 	} else if req.Generation != state.generationID {
 		groupErr = protocol.ILLEGAL_GENERATION
 	}
-	c.mu.Unlock()
+	// The membership/generation check and the offset writes form one critical
+	// section: otherwise a rebalance between them lets a fenced member's commit land.
+	defer c.mu.Unlock()
 
 	resp := kmsg.NewPtrOffsetCommitResponse()
 	resp.Topics = make([]kmsg.OffsetCommitResponseTopic, 0, len(req.Topics))
